@@ -4,7 +4,7 @@
     every memo consistent (Fresh, MemoConsistent, QueriesDoNotMutate); --explain shows TLC's shortest stale
     history of the as-built design.
 (G) the same model with Emit=TRUE prints every history up to a depth as a word; each word is replayed on real
-    Crystal objects of three structures.
+    Crystal objects of five structures.
 (T) every replay is a trace of events validated step by step by Trace_CrystalObject.
 """
 import copy
@@ -74,6 +74,60 @@ def structure_recipes(seed):
     vol = len(rowC["ops"]) * len(asym) * 18.0
     out.append({"number": 146, "choice": "R", "n": 12, "gram": gram, "u": (vol / math.sqrt(xtal.det3(gram))) ** (1 / 3.0),
                 "asym": asym, "via": "res"})
+    # D: a partially occupied atom just off the 3-fold axis (its three images are 0.006 apart in fractional
+    #    coordinates: merged at the documented tolerance 0.01, distinct at 0.001) next to a general atom
+    rowD = rowA
+    gramD = [[18 * 4, -9 * 4, 0], [-9 * 4, 18 * 4, 0], [0, 0, 9 * 11]]
+    asymD = [{"z": 8, "p": [1, 0, 37], "occ": 4, "label": "O1"}, {"z": 6, "p": [70, 31, 120], "occ": 12, "label": "C2"}]
+    volD = len(rowD["ops"]) * 2 * 22.0
+    out.append({"number": 148, "choice": "H", "n": 288, "gram": gramD, "u": (volD / math.sqrt(xtal.det3(gramD))) ** (1 / 3.0),
+                "asym": asymD, "via": "memory"})
+    # E: a diatomic molecule lying across an inversion centre (Z' = 1/2: the molecule consists of two images of one
+    #    asymmetric atom) listed before a whole molecule on a general position
+    recE = None
+    for _ in range(200):
+        base = xtal.gen_molecular(rng, rowA, nmols=1, sizes=(2,), n=48, with_h=False, vol_per_atom=60.0)
+        if base is None:
+            continue
+        n, gram, u = base["n"], base["gram"], base["u"]
+        import numpy as np
+        s2 = u * u / (n * n)
+        cand = [(a, b, c) for a in range(-3, 4) for b in range(-3, 4) for c in range(-3, 4) if (a, b, c) != (0, 0, 0)]
+        rng.shuffle(cand)
+        centre = (n // 2, 0, 0)
+        for dlt in cand:
+            d2 = float(xtal._gdot(gram, np.array([[2 * x for x in dlt]], dtype=np.int64))[0]) * s2
+            if not (1.05 ** 2 <= d2 <= 1.3 ** 2):
+                continue
+            site = {"z": 7, "p": [centre[k] + dlt[k] for k in range(3)], "occ": 12, "label": "N1"}
+            asym = [site] + [dict(a) for a in base["asym"]]
+            pts = {}
+            ok = True
+            for si, a in enumerate(asym):
+                for c in rowA["ops"]:
+                    q = xtal.apply_grid(c, a["p"], n)
+                    if q in pts:
+                        ok = False
+                    pts[q] = si
+            if not ok:
+                continue
+            uc = np.array(list(pts.keys()), dtype=np.int64)
+            cells = np.array([(a, b, c) for a in (-1, 0, 1) for b in (-1, 0, 1) for c in (-1, 0, 1)], dtype=np.int64) * n
+            pa = np.array([x % n for x in site["p"]], dtype=np.int64)
+            dd = xtal._gdot(gram, (uc[:, None, :] + cells[None, :, :]) - pa[None, None, :]) * s2
+            close = np.sort(dd[dd < 2.3 ** 2])
+            # itself (0) and its inversion image (the bond), nothing else within 2.3 A
+            if len(close) == 2 and close[0] < 1e-9 and 1.0 < math.sqrt(close[1]) < 1.35:
+                for i, a in enumerate(asym):
+                    a["label"] = "%s%d" % (xtal.SYMBOLS[a["z"]], i + 1)
+                recE = dict(base, asym=asym, via="memory")
+                recE["gram"] = [[9 * x for x in row] for row in gram]
+                recE["u"] = u / 3.0
+                break
+        if recE:
+            break
+    if recE:
+        out.append(recE)
     return out
 
 
@@ -123,8 +177,8 @@ def _crystal_summary(c, nf, u):
     return {"sg": int(c.space_group.international_tables_number),
             "ops": sorted(int(s.integer_code) for s in c.space_group.symmetry_operations), "gram": gram,
             # atoms modulo the lattice, on the grid (rounding noise such as -1e-17 must not become 0.99999...)
-            "atoms": sorted((int(z), tuple(x % nf for x in p)) for z, p in zip(c.asymmetric_unit.atomic_numbers,
-                                                                                _gf(np.asarray(c.asymmetric_unit.positions), nf)))}
+            "atoms": [(int(z), tuple(x % nf for x in p)) for z, p in zip(c.asymmetric_unit.atomic_numbers,
+                                                                          _gf(np.asarray(c.asymmetric_unit.positions), nf))]}
 
 
 def canon(q, cr, nf, u):
@@ -132,12 +186,12 @@ def canon(q, cr, nf, u):
     from chmpy.crystal import Crystal
     if q == "unit_cell_atoms":
         d = cr.unit_cell_atoms()
-        return sorted(zip(_gf(d["frac_pos"], nf), _g(cr, d["cart_pos"], nf), map(int, d["asym_atom"]), map(int, d["element"]),
-                          [round(float(x), 6) for x in d["occupation"]], map(int, d["symop"]), map(str, d["label"])))
+        return list(zip(_gf(d["frac_pos"], nf), _g(cr, d["cart_pos"], nf), map(int, d["asym_atom"]), map(int, d["element"]),
+                        [round(float(x), 6) for x in d["occupation"]], map(int, d["symop"]), map(str, d["label"])))
     if q == "slab":
         d = cr.slab(bounds=((-1, -1, -1), (1, 1, 1)))
         return [int(d["n_uc"]), int(d["n_cells"]),
-                sorted(zip(_gf(d["frac_pos"], nf), _g(cr, d["cart_pos"], nf), map(int, d["asym_atom"]), map(int, d["element"])))]
+                list(zip(_gf(d["frac_pos"], nf), _g(cr, d["cart_pos"], nf), map(int, d["asym_atom"]), map(int, d["element"])))]
     if q == "unit_cell_connectivity":
         g, props = cr.unit_cell_connectivity()
         uc = cr.unit_cell_atoms()
@@ -145,18 +199,19 @@ def canon(q, cr, nf, u):
         return sorted((fp[i], fp[j], tuple(int(round(float(x))) for x in c), round(float(g[i, j]), 5)) for (i, j), c in props.items())
     if q in ("unit_cell_molecules", "symmetry_unique_molecules"):
         mols = getattr(cr, q)()
-        return sorted(sorted(zip(_g(cr, m.positions, nf), map(int, m.atomic_numbers))) for m in mols)
+        # the list order is part of the answer (callers index molecules by position in this list)
+        return [list(zip(_g(cr, m.positions, nf), map(int, m.atomic_numbers))) for m in mols]
     if q == "atoms_in_radius":
         d = cr.atoms_in_radius(4.0, origin=(0.3, 0.4, 0.5))
-        return sorted(zip(_g(cr, d["cart_pos"], nf), map(int, d["element"])))
+        return list(zip(_g(cr, d["cart_pos"], nf), map(int, d["element"])))
     if q == "atomic_surroundings":
         res = cr.atomic_surroundings(radius=4.0)
         return [[int(s["centre"]["element"]), sorted(zip(_g(cr, s["neighbours"]["cart_pos"], nf), map(int, s["neighbours"]["element"]),
                                                        [round(float(x), 5) for x in s["neighbours"]["distance"]]))] for s in res]
     if q == "molecule_environments":
         res = cr.molecule_environments(radius=4.0)
-        return sorted([sorted(zip(_g(cr, m.positions, nf), map(int, m.atomic_numbers))), sorted(zip(_g(cr, pos, nf), map(int, els)))]
-                      for m, els, pos in res)
+        return [[list(zip(_g(cr, m.positions, nf), map(int, m.atomic_numbers))), sorted(zip(_g(cr, pos, nf), map(int, els)))]
+                for m, els, pos in res]
     if q == "density":
         return float("%.8g" % float(cr.density))
     if q == "to_cif_string":
@@ -296,6 +351,8 @@ def run(ctx, explain=False):
     ctx.notes["tlc_words"] = len(words)
     for k, rec in enumerate(recs):
         sel = words if (not ctx.quick or k == 0) else [w for j, w in enumerate(words) if (j + k) % 4 == 0]
+        if ctx.quick and k >= 3:
+            sel = [w for j, w in enumerate(words) if (j + k) % 3 == 0]
         for w in sel:
             jobs.append({"rec": rec, "word": list(w)})
     # longer random histories
@@ -318,8 +375,8 @@ def run(ctx, explain=False):
     traces = pool_map(drive, jobs, chunksize=8)
     ctx.notes["replayed_histories"] = len(traces)
     ctx.validate("trace/Trace_CrystalObject.tla", traces, batch=4000, timeout=2400)
-    ctx.rule = ("histories over %d read-only queries (fixed arguments), choose_trigonal_lattice('H'/'R') and deepcopy on three structures "
-                "(148 H molecular built in memory, 167 H loaded from CIF, 146 R loaded from SHELX): every history of length <= 2 over the full "
+    ctx.rule = ("histories over %d read-only queries (fixed arguments), choose_trigonal_lattice('H'/'R') and deepcopy on five structures "
+                "(148 H molecular built in memory, 167 H loaded from CIF, 146 R loaded from SHELX, 148 H with a partially occupied site just off the 3-fold axis, 148 H with a diatomic across an inversion centre listed before a general molecule): every history of length <= 2 over the full "
                 "alphabet and <= 3 over the %d-query core enumerated by TLC from MC_CrystalObject (thorough: <= 3 full, <= 4 core), plus seeded "
                 "random histories of length 5-12; non-trivial = the history contains a setting switch" % (len(QUERIES), len(CORE)))
     ctx.exhaustive = True
